@@ -113,6 +113,12 @@ func c16Run(c *vh.Ctx, r *vh.Rng, k int, root string, cases, impl *[]string, inp
 		p.Cfg["WeatherFileFormat"] = "2"
 	}
 	cs := c16Prepare(r, p, k, (k/16)%4)
+	// a scenario selected with fileExtension=<ext> on the batch line: rotation, polygon and automan table of the run are the files
+	// with that extension; the .txt files beside them belong to another scenario (the automan table with other windows and limits)
+	scenarioExt := k%5 == 3 && strings.Trim(p.Cfg["CropFileFormat"], "\"") == "txt"
+	if scenarioExt {
+		p.Args = append(p.Args, "fileExtension=alt")
+	}
 	autoMan, autoHar, autoIrr, autoFert, sw, format, table, entries, s0 := cs.AutoMan, cs.AutoHar, cs.AutoIrr, cs.AutoFert, cs.Sw, cs.Format, cs.Table, cs.Entries, cs.S0
 	replay := map[string]interface{}{"project": p, "automan": entries, "switches": sw, "date_format": format,
 		"how": "proj.Project JSON + automan entries: Project.Write, WriteManagementConf, WriteAutoman, proj.Run (harness/cmd/check/c16.go c16Run)"}
@@ -128,7 +134,13 @@ func c16Run(c *vh.Ctx, r *vh.Rng, k int, root string, cases, impl *[]string, inp
 		if err := p.WriteAutoman(root, entries); err != nil {
 			return err
 		}
-		return c16TrimAutoman(root, p, cs, k)
+		if err := c16TrimAutoman(root, p, cs, k); err != nil {
+			return err
+		}
+		if scenarioExt {
+			return c16ScenarioFiles(root, p, entries)
+		}
+		return nil
 	})
 	if err != nil {
 		c.Violate("search", "harness:write", err.Error(), replay)
@@ -730,4 +742,33 @@ func minISch(a, b int) int {
 		return a
 	}
 	return b
+}
+
+// c16ScenarioFiles: the files the run reads become crop_<p>.alt / poly_<p>.alt / automan.alt; automan.txt is rewritten as the
+// table of ANOTHER scenario (sowing windows a month earlier, latest harvest later, other irrigation maximum, other N demand).
+func c16ScenarioFiles(root string, p *proj.Project, entries []proj.AutoEntry) error {
+	d := filepath.Join(root, "project", p.Name)
+	for _, f := range []string{"crop_" + p.Name, "poly_" + p.Name, "automan"} {
+		b, err := os.ReadFile(filepath.Join(d, f+".txt"))
+		if err != nil {
+			return err
+		}
+		if err := os.WriteFile(filepath.Join(d, f+".alt"), b, 0o644); err != nil {
+			return err
+		}
+	}
+	other := make([]proj.AutoEntry, len(entries))
+	for i, e := range entries {
+		shift := func(m, dd, by int) (int, int) {
+			z := proj.Date{Y: 2001, M: m, D: dd}.AddDays(by)
+			return z.M, z.D
+		}
+		e.Sow1M, e.Sow1D = shift(e.Sow1M, e.Sow1D, -35)
+		e.Sow2M, e.Sow2D = shift(e.Sow2M, e.Sow2D, -35)
+		e.Har2M, e.Har2D = shift(e.Har2M, e.Har2D, 25)
+		e.IrrMax = e.IrrMax/2 + 7
+		e.NDem1 += 40
+		other[i] = e
+	}
+	return p.WriteAutoman(root, other)
 }
